@@ -358,16 +358,41 @@ func extractDeferSignature(d *ssa.Defer) string {
 
 func extractClosureSignature(v *ssa.MakeClosure) string {
 	if fn, ok := v.Fn.(*ssa.Function); ok && fn != nil {
-		return fmt.Sprintf("closure:%s", fn.Signature.String())
+		return fmt.Sprintf("closure:%s", signatureShape(fn.Signature))
 	}
 	return ""
+}
+
+// signatureShape renders a signature from its parameter and result TYPES only, so that the
+// names a function literal gives its parameters do not leak into the call profile.
+func signatureShape(sig *types.Signature) string {
+	var params, results []string
+	for i := 0; i < sig.Params().Len(); i++ {
+		ts := normalizeTypeName(sig.Params().At(i).Type())
+		if sig.Variadic() && i == sig.Params().Len()-1 {
+			ts = "..." + strings.TrimPrefix(ts, "[]")
+		}
+		params = append(params, ts)
+	}
+	for i := 0; i < sig.Results().Len(); i++ {
+		results = append(results, normalizeTypeName(sig.Results().At(i).Type()))
+	}
+	out := "func(" + strings.Join(params, ", ") + ")"
+	switch len(results) {
+	case 0:
+	case 1:
+		out += " " + results[0]
+	default:
+		out += " (" + strings.Join(results, ", ") + ")"
+	}
+	return out
 }
 
 func extractFunctionSig(fn *ssa.Function) string {
 	// Fix: Detect anonymous/nested functions to provide stable signatures.
 	// This handles optimizations where simple closures become plain Functions.
 	if fn.Parent() != nil {
-		return fmt.Sprintf("closure:%s", fn.Signature.String())
+		return fmt.Sprintf("closure:%s", signatureShape(fn.Signature))
 	}
 
 	if fn.Pkg != nil {
